@@ -143,6 +143,36 @@ class _NeedsReordering(Exception):
     """Raise this to request reordering."""
 
 
+class _ReorderingDisabled:
+    """Context manager that disables reordering requests.
+
+    For functions that hold intermediate results as
+    integers (so reordering, which collects garbage,
+    would invalidate them), and are not decorated
+    with `_try_to_reorder`.
+    """
+
+    def __init__(
+            self,
+            bdd:
+                'BDD'
+            ) -> None:
+        self.bdd = bdd
+        self.last_len = None
+
+    def __enter__(
+            self):
+        self.last_len = self.bdd._last_len
+        self.bdd._last_len = None
+
+    def __exit__(
+            self,
+            ex_type,
+            ex_value,
+            tb):
+        self.bdd._last_len = self.last_len
+
+
 _Yes: _ty.TypeAlias = dd._abc.Yes
 _Nat: _ty.TypeAlias = dd._abc.Nat
 _Cardinality: _ty.TypeAlias = dd._abc.Cardinality
@@ -1480,7 +1510,10 @@ class BDD(dd._abc.BDD[_Ref]):
         @param w:
             high edge
         """
-        _request_reordering(self)
+        # request reordering only when called (indirectly)
+        # by a method that serves the request
+        if self._reordering_context:
+            _request_reordering(self)
         if i < 0:
             raise ValueError(
                 f'The given level: {i = } < 0')
@@ -2459,13 +2492,14 @@ class BDD(dd._abc.BDD[_Ref]):
                 j = self.add_var(var)
             level_map[i] = j
         umap = {1: 1}
-        for u in succ:
-            # already added ?
-            if u in umap:
-                continue
-            # add
-            self._load(
-                u, succ, umap, level_map)
+        with _ReorderingDisabled(self):
+            for u in succ:
+                # already added ?
+                if u in umap:
+                    continue
+                # add
+                self._load(
+                    u, succ, umap, level_map)
         return umap, d['roots']
 
     def _load(
@@ -2810,9 +2844,10 @@ def image(
     s.intersection_update(rename.values())
     if s:
         raise AssertionError(s)
-    return _image(
-        trans, source, rename_u, rename_v,
-        qvars, bdd, forall, cache)
+    with _ReorderingDisabled(bdd):
+        return _image(
+            trans, source, rename_u, rename_v,
+            qvars, bdd, forall, cache)
 
 
 def preimage(
@@ -2868,16 +2903,17 @@ def preimage(
     # the variables that it is renamed to.
     # Otherwise rename before descending.
     support = bdd.support(target, as_levels=True)
-    if support.intersection(rename.values()):
-        level_map = {
-            i: rename.get(i, i)
-            for i in bdd._level_to_var}
-        target = _copy_bdd(
-            target, level_map, bdd, bdd, dict())
-        rename_v = None
-    return _image(
-        trans, target, rename_u, rename_v,
-        qvars, bdd, forall, cache)
+    with _ReorderingDisabled(bdd):
+        if support.intersection(rename.values()):
+            level_map = {
+                i: rename.get(i, i)
+                for i in bdd._level_to_var}
+            target = _copy_bdd(
+                target, level_map, bdd, bdd, dict())
+            rename_v = None
+        return _image(
+            trans, target, rename_u, rename_v,
+            qvars, bdd, forall, cache)
 
 
 def _image(
@@ -3181,10 +3217,11 @@ def copy_bdd(
             to_bdd.level_of_var(var)
         for var in from_bdd.vars
         if var in to_bdd.vars}
-    r = _copy_bdd(
-        u, level_map,
-        from_bdd, to_bdd,
-        cache=dict())
+    with _ReorderingDisabled(to_bdd):
+        r = _copy_bdd(
+            u, level_map,
+            from_bdd, to_bdd,
+            cache=dict())
     return r
 
 
